@@ -15,7 +15,7 @@
 From Coq Require Import ZArith List String Permutation.
 From LV Require Import Base.Conc Base.Events Base.Lin Spec.Specs Model.MsPq
   Proofs.MsPqBrc Proofs.MsPqInv Proofs.MsPqProofs Proofs.MsPqHeap Proofs.MsPqSeq Proofs.MsPqPhase Proofs.MsPqBounds Proofs.MsPqPush.
-From LV Require Import Proofs.MsPqBrcGen Proofs.MsPqBrcAll Proofs.MsPqReal Proofs.MsPqPushLin.
+From LV Require Import Proofs.MsPqBrcGen Proofs.MsPqBrcAll Proofs.MsPqReal Proofs.MsPqPushLin Proofs.MsPqPop.
 Require LV.Model.FcKernel LV.Model.FcBatch LV.Proofs.FcBatchProofs LV.Proofs.FcKernelProofs LV.Proofs.FcContainers.
 Import ListNotations.
 Local Open Scope Z_scope.
@@ -104,7 +104,8 @@ Print Assumptions C11_mspq_phase_linearizable_partial.
     [Good n h tg]: the cells in use are exactly the first n = m_ItemCounter slots, every cell in use is tagged
     Available and is not larger than its parent -- holding exactly the successfully pushed items.  (The invariant
     behind it, at every instant: a cell tagged with a thread id is the one that thread is bubbling, and an Available
-    cell is not larger than any of its ancestors.)  The pop-only counterpart and the composition into
+    cell is not larger than any of its ancestors.)  The pop-phase counterpart for the heap is
+    [C11_mspq_two_phase_heap] below; the order of concurrent pops and the composition into
     [C11_mspq_phase_linearizable_statement] are not proved: see LV.Proofs.MsPqPhase. *)
 Theorem C11_mspq_push_phase_heap :
   forall cap, slots_ok cap = true -> shape_ok cap = true ->
@@ -138,6 +139,36 @@ Theorem C11_mspq_push_phase_linearizable :
     linearizable (BPQueue cap) (hist_of cap (Conc.trace c)).
 Proof. exact mspq_push_phase_linearizable. Qed.
 Print Assumptions C11_mspq_push_phase_linearizable.
+
+(** a phase of concurrent pushes followed by a phase of concurrent pops, EVERY schedule: [twophase tr] says that no
+    pop is invoked while a push is pending and no push is invoked after the first pop (nothing else is assumed: the
+    pops overlap each other arbitrarily).  Whenever no operation is pending the heap is a max-heap again -- the cells
+    in use are the first [count] slots, all tagged Available, every cell in use is not larger than its parent --
+    holding exactly the items pushed and not handed back.  Invariant of the pop phase (LV.Proofs.MsPqPop, [PopFacts]):
+    a node lock has one holder and only the holder changes the cell; the "frontier" cells are the pParent cells of the
+    pops inside heapify_after_pop, each locked by its pop; every cell in use is not larger than ANY of its ancestors
+    that is not a frontier cell, and all its ancestors are in use.  The order in which concurrent pops return the
+    items (linearizability of the pop phase) is not proved: see LV.Proofs.MsPqPhase. *)
+Theorem C11_mspq_two_phase_heap :
+  forall cap, slots_ok cap = true -> shape_ok cap = true ->
+  forall bsz, (cap < bsz)%nat ->
+  forall (hf lf : nat) (ths : list (list MsPq.op)) c,
+    Conc.reach (MsPq.init_cfg cap bsz hf lf ths) c ->
+    twophase (Conc.trace c) = true -> (forall t, pend (Conc.trace c) t = false) ->
+    Good (count (Conc.shared c)) (cellv (Conc.shared c)) (cellt (Conc.shared c)) /\
+    Permutation (heap_items cap (Conc.shared c) ++ given_back (Conc.trace c)) (invoked (Conc.trace c)).
+Proof. exact mspq_two_phase_heap. Qed.
+Print Assumptions C11_mspq_two_phase_heap.
+
+(** non-vacuity: two threads push three items each, then two other threads pop concurrently (five pops); the
+    discipline holds, a pop has been invoked, everything has returned, one item is left *)
+Example C11_mspq_two_phase_nonvacuous :
+  let r := Conc.run 6000 0 (List.app (repeat 0 80) (List.app (repeat 1 80) [2;3;3;2;2;2;3;3;2;3;2;3;3;3;2;2;3;2;3;2;2;3;3;2;3;2;2;3]))%nat
+             (MsPq.init_cfg 7 8 60 60 [[OPush (1, 1); OPush (5, 2); OPush (7, 7)]; [OPush (3, 3); OPush (5, 4); OPush (2, 6)];
+                                       [OPop; OPop]; [OPop; OPop; OPop]]) in
+  snd r = true /\ twophase (Conc.trace (fst r)) = true /\ pop_invoked (Conc.trace (fst r)) = true /\
+  count (Conc.shared (fst r)) = 1%nat /\ forallb (fun t => negb (pend (Conc.trace (fst r)) t)) [0; 1; 2; 3]%nat = true.
+Proof. vm_compute. repeat split; reflexivity. Qed.
 
 (** ** capacities *)
 Theorem C11_mspq_capacities :
@@ -267,6 +298,15 @@ Theorem C11_mspq_push_phase_real :
     Permutation (heap_items (rcap k) (Conc.shared c) ++ given_back (Conc.trace c)) (invoked (Conc.trace c)).
 Proof. exact mspq_push_phase_real. Qed.
 Print Assumptions C11_mspq_push_phase_real.
+
+Theorem C11_mspq_two_phase_real :
+  forall (k bsz hf lf : nat) (ths : list (list MsPq.op)) c,
+    (k <= 61)%nat -> (rcap k < bsz)%nat -> Conc.reach (MsPq.init_cfg (rcap k) bsz hf lf ths) c ->
+    twophase (Conc.trace c) = true -> (forall t, pend (Conc.trace c) t = false) ->
+    Good (count (Conc.shared c)) (cellv (Conc.shared c)) (cellt (Conc.shared c)) /\
+    Permutation (heap_items (rcap k) (Conc.shared c) ++ given_back (Conc.trace c)) (invoked (Conc.trace c)).
+Proof. exact mspq_two_phase_real. Qed.
+Print Assumptions C11_mspq_two_phase_real.
 
 (** ** FCPriorityQueue (model LV.Model.FcKernel + FcBatch, proofs LV.Proofs.FcContainers -- flat-combining work).
     For every schedule, any number of threads, compact factor and combine pass count: on traces without the
